@@ -290,6 +290,12 @@ def build_pool(rng, room):
             pool.append((cls, "rh", wrong + "/" + rest))
             pool.append((cls, "rh", str(int(float(score))) + "/" + rest))
             pool.append((cls, "rh", " " + rh))
+    # the corner vectors (zero impact, score 10.0, undefined groups, explicit Not Defined ...) take the
+    # rare branches of the scoring code: early returns, shortcuts
+    for _ in range(rng.between(0, 2)):
+        version = rng.choice(list(spec.VERSIONS))
+        name, body = rng.choice(vectors.CORNERS[vectors.MAJOR[version]])
+        pool.append((spec.CLASS_OF[version], "ctor", spec.PREFIX[version] + body))
     return pool
 
 
